@@ -4,7 +4,7 @@
 // a 6-id forced-collision universe (3 ids sharing 36 hash bits, 2 sharing 51, 1 unrelated), every id on each
 // side one of {absent, head h1, head h2} => 729 x 729 ordered pairs of element sets; every pair is diffed with
 // Diff and CompareDiff, for every (divideFactor, compareThreshold) of the grid, with indexes built fresh / by
-// insert-then-update / by insert-extra-then-remove, the remote side reached in process, through
+// insert-then-update / by insert-extra-then-remove / by insert, remove, then insert the rest (churn), the remote side reached in process, through
 // headsync.NewRemoteDiff -> DiffManager.HandleRangeRequest and through keyvalue.NewRemoteDiff ->
 // keyvalue.HandleRangeRequest (both with a real MarshalVT/UnmarshalVT round trip of request and response).
 // The oracle is the set-theoretic difference of the two contents maps.
@@ -176,9 +176,14 @@ const (
 	modeFresh  = 0 // one Set call with the final contents
 	modeUpdate = 1 // every id inserted with another head, then updated one by one
 	modeRemove = 2 // inserted together with extra ids, extras removed afterwards
+	// modeChurn: the ids of the collision triple and the extra ids (with a head the other side may hold too) are
+	// inserted together, the extras are removed one by one (ranges merge back, possibly several levels at once), and
+	// only then are the remaining ids added one by one (ranges divide again next to the merged ones)
+	modeChurn = 3
+	nModes    = 4
 )
 
-var modeNames = [3]string{"fresh", "update", "remove"}
+var modeNames = [nModes]string{"fresh", "update", "remove", "churn"}
 
 func sortedIds(m map[string]string) []string {
 	ids := make([]string, 0, len(m))
@@ -225,6 +230,39 @@ func buildIndex(p param, contents map[string]string, mode int, extras []string) 
 		d.Set(els...)
 		for _, id := range extras {
 			_ = d.RemoveId(id)
+		}
+	case modeChurn:
+		inTriple := map[string]bool{}
+		for _, id := range ldu.Triple {
+			inTriple[id] = true
+		}
+		// only extras from the universe, with a head of the universe: whatever a merge leaves behind then describes
+		// contents the other side can really hold
+		var own []string
+		for _, id := range extras {
+			if _, ok := idBit[id]; ok {
+				own = append(own, id)
+			}
+		}
+		extras = own
+		els := make([]ldiff.Element, 0, len(ids)+len(extras))
+		for _, id := range extras {
+			els = append(els, ldiff.Element{Id: id, Head: "h1"})
+		}
+		var late []string
+		for _, id := range ids {
+			if inTriple[id] {
+				els = append(els, ldiff.Element{Id: id, Head: contents[id]})
+			} else {
+				late = append(late, id)
+			}
+		}
+		d.Set(els...)
+		for _, id := range extras {
+			_ = d.RemoveId(id)
+		}
+		for _, id := range late {
+			d.Set(ldiff.Element{Id: id, Head: contents[id]})
 		}
 	}
 	return d
@@ -632,7 +670,7 @@ func TestCheck(t *testing.T) {
 		Level: "exploration",
 		Rule: "exhaustive enumeration of all 3^6 x 3^6 ordered pairs of element sets over a 6-id forced-collision universe " +
 			"(3 ids sharing a 36-bit xxhash prefix, 2 sharing 51 bits, 1 unrelated; each id absent / head h1 / head h2 per side) " +
-			"x (divideFactor, compareThreshold) grid x index build history (fresh, insert-then-update, insert-extra-then-remove) " +
+			"x (divideFactor, compareThreshold) grid x index build history (fresh, insert-then-update, insert-extra-then-remove, churn = insert-remove-then-insert) " +
 			"x transport (in process, headsync.NewRemoteDiff->DiffManager.HandleRangeRequest, keyvalue.NewRemoteDiff->HandleRangeRequest, " +
 			"both with MarshalVT/UnmarshalVT of request and response) x {Diff, CompareDiff}, plus fixed large cases; " +
 			"evaluations = diff runs compared with the set-theoretic reference; distinct_nontrivial = distinct non-empty outcomes " +
@@ -677,33 +715,33 @@ func gridParams(c *vk.Ctx) (full []param) {
 // jobsFor lists what is enumerated for one parameter pair: (left history, right history, transport, stride);
 // stride 0 = all 531441 pairs, stride n = the deterministic subset inSubset(l, r, n).
 func jobsFor(c *vk.Ctx, p param) (jobs []job) {
-	F, U, R := modeFresh, modeUpdate, modeRemove
+	F, U, R, C := modeFresh, modeUpdate, modeRemove, modeChurn
 	if c.Quick() {
 		switch p {
 		case param{2, 1}: // the expensive one (up to 54 rounds per diff)
 			return []job{{F, F, trInproc, 0}, {U, R, trInproc, 9}, {R, U, trInproc, 9},
-				{F, F, trHs, 27}, {F, F, trKv, 27}, {U, R, trHs, 27}, {R, U, trKv, 27}}
+				{F, F, trHs, 27}, {F, F, trKv, 27}, {U, R, trHs, 27}, {R, U, trKv, 27}, {C, F, trInproc, 9}, {R, C, trHs, 27}}
 		case param{16, 4}:
 			return []job{{F, F, trInproc, 0}, {U, R, trInproc, 3}, {R, U, trInproc, 3},
-				{F, F, trHs, 9}, {F, F, trKv, 9}, {U, R, trHs, 9}, {R, U, trKv, 9}}
+				{F, F, trHs, 9}, {F, F, trKv, 9}, {U, R, trHs, 9}, {R, U, trKv, 9}, {C, F, trInproc, 3}, {F, C, trKv, 9}}
 		case param{3, 2}:
-			return []job{{F, F, trInproc, 0}, {U, U, trInproc, 9}, {R, R, trInproc, 9}, {U, F, trHs, 27}, {F, R, trKv, 27}}
+			return []job{{F, F, trInproc, 0}, {U, U, trInproc, 9}, {R, R, trInproc, 9}, {U, F, trHs, 27}, {F, R, trKv, 27}, {C, C, trInproc, 9}, {C, U, trHs, 27}}
 		default: // (0,0) behaves as (2,1): only the clamping is of interest
-			return []job{{F, F, trInproc, 9}, {U, R, trInproc, 27}, {F, F, trHs, 81}, {F, F, trKv, 81}}
+			return []job{{F, F, trInproc, 9}, {U, R, trInproc, 27}, {F, F, trHs, 81}, {F, F, trKv, 81}, {C, F, trInproc, 27}}
 		}
 	}
 	if p.Df == 0 || p.Thr == 0 {
 		// a clamped value behaves as its clamp target (which is enumerated in full): three history combinations in
 		// process and both wire adapters, all pairs
-		return []job{{F, F, trInproc, 0}, {U, R, trInproc, 0}, {R, U, trInproc, 0}, {F, F, trHs, 0}, {F, F, trKv, 0}}
+		return []job{{F, F, trInproc, 0}, {U, R, trInproc, 0}, {R, U, trInproc, 0}, {F, F, trHs, 0}, {F, F, trKv, 0}, {C, F, trInproc, 0}}
 	}
-	for lm := 0; lm < 3; lm++ {
-		for rm := 0; rm < 3; rm++ {
+	for lm := 0; lm < nModes; lm++ {
+		for rm := 0; rm < nModes; rm++ {
 			jobs = append(jobs, job{lm, rm, trInproc, 0})
 		}
 	}
 	for _, tr := range []int{trHs, trKv} {
-		jobs = append(jobs, job{F, F, tr, 0}, job{U, R, tr, 0}, job{R, U, tr, 0})
+		jobs = append(jobs, job{F, F, tr, 0}, job{U, R, tr, 0}, job{R, U, tr, 0}, job{C, F, tr, 0})
 	}
 	return
 }
@@ -803,9 +841,9 @@ func body(c *vk.Ctx) {
 func (r *runner) runParam(pi int, p param, jobs []job) bool {
 	c := r.c
 	// build the 729 indexes once per build mode (Diff mutates neither side)
-	var idx [3][]ldiff.Diff
-	var dms [3][]*headsync.DiffManager
-	for m := 0; m < 3; m++ {
+	var idx [nModes][]ldiff.Diff
+	var dms [nModes][]*headsync.DiffManager
+	for m := 0; m < nModes; m++ {
 		idx[m] = make([]ldiff.Diff, nCodes)
 		dms[m] = make([]*headsync.DiffManager, nCodes)
 	}
@@ -822,7 +860,7 @@ func (r *runner) runParam(pi int, p param, jobs []job) bool {
 					return
 				}
 				cont := contentsOfCode(code)
-				for m := 0; m < 3; m++ {
+				for m := 0; m < nModes; m++ {
 					if panicked, what := vk.Recover(func() {
 						idx[m][code] = buildIndex(p, cont, m, smallExtras(cont))
 						dms[m][code] = newDM(idx[m][code])
@@ -841,7 +879,7 @@ func (r *runner) runParam(pi int, p param, jobs []job) bool {
 	}
 	// sanity: the three histories hold the same contents
 	for code := 0; code < nCodes; code += 91 {
-		for m := 0; m < 3; m++ {
+		for m := 0; m < nModes; m++ {
 			if idx[m][code].Len() != len(contentsOfCode(code)) {
 				c.Broken("harness: index built in mode %s for code %d holds %d elements", modeNames[m], code, idx[m][code].Len())
 				return false
